@@ -117,6 +117,84 @@ Definition struct_fields (g : genv) (t : gty) : option (list (str * gty)) :=
   | _ => None
   end.
 
+(** names read anywhere in a statement list (an assignment target is not a read) *)
+Fixpoint reads_e (fuel : nat) (e : expr) {struct fuel} : list str :=
+  match fuel with
+  | O => []
+  | S fuel =>
+  let rl := fix go (l : list expr) : list str := match l with [] => [] | x :: r => reads_e fuel x ++ go r end in
+  match e with
+  | EVar x _ => [x]
+  | ECall f a _ => reads_e fuel f ++ rl a
+  | EUnary _ x _ | ECast x _ => reads_e fuel x
+  | EBinary _ l r _ | EIndex l r _ => reads_e fuel l ++ reads_e fuel r
+  | EField o _ _ => reads_e fuel o
+  | EStructLit fs _ => (fix go (l : list (str * expr)) : list str := match l with [] => [] | (_, x) :: r => reads_e fuel x ++ go r end) fs
+  | EArrayLit es _ => rl es
+  | _ => []
+  end
+  end.
+
+Fixpoint reads_s (fuel : nat) (ss : list stmt) {struct fuel} : list str :=
+  match fuel with
+  | O => []
+  | S fuel =>
+  match ss with
+  | [] => []
+  | st :: rest =>
+      (match st with
+       | SExpr e | SGo e => reads_e (S fuel) e
+       | SVarDecl _ _ (Some e) => reads_e (S fuel) e
+       | SVarDecl _ _ None => []
+       | SAssign _ v => reads_e (S fuel) v
+       | SFieldAssign t v | SPointerAssign t v => reads_e (S fuel) t ++ reads_e (S fuel) v
+       | SIndexAssign a i v => reads_e (S fuel) a ++ reads_e (S fuel) i ++ reads_e (S fuel) v
+       | SReturn (Some e) => reads_e (S fuel) e
+       | SReturn None | SBreak => []
+       | SIf c th el => reads_e (S fuel) c ++ reads_s fuel th ++ match el with Some b => reads_s fuel b | None => [] end
+       | SLoop b => reads_s fuel b
+       | SSwitchExpr e cases d =>
+           reads_e (S fuel) e ++
+           (fix go (l : list (expr * list stmt)) : list str := match l with [] => [] | (c, b) :: r => reads_e (S fuel) c ++ reads_s fuel b ++ go r end) cases ++
+           match d with Some b => reads_s fuel b | None => [] end
+       | SSwitchType _ e cases d =>
+           reads_e (S fuel) e ++
+           (fix go (l : list (gty * list stmt)) : list str := match l with [] => [] | (_, b) :: r => reads_s fuel b ++ go r end) cases ++
+           match d with Some b => reads_s fuel b | None => [] end
+       end) ++ reads_s fuel rest
+  end
+  end.
+
+Fixpoint decls_s (fuel : nat) (ss : list stmt) {struct fuel} : list str :=
+  match fuel with
+  | O => []
+  | S fuel =>
+  match ss with
+  | [] => []
+  | st :: rest =>
+      (match st with
+       | SVarDecl x _ _ => [x]
+       | SIf _ th el => decls_s fuel th ++ match el with Some b => decls_s fuel b | None => [] end
+       | SLoop b => decls_s fuel b
+       | SSwitchExpr _ cases d =>
+           (fix go (l : list (expr * list stmt)) : list str := match l with [] => [] | (_, b) :: r => decls_s fuel b ++ go r end) cases ++
+           match d with Some b => decls_s fuel b | None => [] end
+       | SSwitchType bind _ cases d =>
+           (fix go (l : list (gty * list stmt)) : list str := match l with [] => [] | (_, b) :: r => decls_s fuel b ++ go r end) cases ++
+           match d with Some b => decls_s fuel b | None => [] end
+       | _ => []
+       end) ++ decls_s fuel rest
+  end
+  end.
+
+
+(** Go binds an import to the last element of its path *)
+Fixpoint last_segment (p : str) : str :=
+  match p with
+  | [] => []
+  | c :: r => if existsb (N.eqb 47) r then last_segment r else (if c =? 47 then r else p)
+  end.
+
 Fixpoint has_prefix0 (p s : str) : bool :=
   match p, s with [] , _ => true | x :: p', y :: s' => (x =? y) && has_prefix0 p' s' | _ :: _, [] => false end.
 
@@ -124,7 +202,7 @@ Section Chk.
 Variable g : genv.
 
 (** a name qualified by an imported package: an extern whose signature is not in the file *)
-Definition is_extern (x : str) : bool := existsb (fun p => has_prefix0 (p ++ [46]) x) (g_imports g).
+Definition is_extern (x : str) : bool := existsb (fun p => has_prefix0 (last_segment p ++ [46]) x) (g_imports g).
 
 Definition scope := list (str * gty).
 
@@ -314,6 +392,12 @@ Fixpoint chk_stmts (fuel : nat) (ret : option gty) (sc : list scope) (cur : scop
                match d with Some b => block b | None => [] end
            | SSwitchType bind e cases d =>
                E e ++ (if is_iface g (T e) then [] else [(14, [])]) ++
+               (match bind with
+                | Some x =>
+                    let rd := flat_map (fun c => reads_s 400 (snd c)) cases ++ match d with Some b => reads_s 400 b | None => [] end in
+                    if list_eqb x [95] || existsb (list_eqb x) rd then [] else [(12, x)]
+                | None => []
+                end) ++
                (fix go (l : list (gty * list stmt)) : list finding :=
                   match l with
                   | [] => []
@@ -329,76 +413,6 @@ Fixpoint chk_stmts (fuel : nat) (ret : option gty) (sc : list scope) (cur : scop
   end.
 
 End Chk.
-
-(** names read anywhere in a statement list (an assignment target is not a read) *)
-Fixpoint reads_e (fuel : nat) (e : expr) {struct fuel} : list str :=
-  match fuel with
-  | O => []
-  | S fuel =>
-  let rl := fix go (l : list expr) : list str := match l with [] => [] | x :: r => reads_e fuel x ++ go r end in
-  match e with
-  | EVar x _ => [x]
-  | ECall f a _ => reads_e fuel f ++ rl a
-  | EUnary _ x _ | ECast x _ => reads_e fuel x
-  | EBinary _ l r _ | EIndex l r _ => reads_e fuel l ++ reads_e fuel r
-  | EField o _ _ => reads_e fuel o
-  | EStructLit fs _ => (fix go (l : list (str * expr)) : list str := match l with [] => [] | (_, x) :: r => reads_e fuel x ++ go r end) fs
-  | EArrayLit es _ => rl es
-  | _ => []
-  end
-  end.
-
-Fixpoint reads_s (fuel : nat) (ss : list stmt) {struct fuel} : list str :=
-  match fuel with
-  | O => []
-  | S fuel =>
-  match ss with
-  | [] => []
-  | st :: rest =>
-      (match st with
-       | SExpr e | SGo e => reads_e (S fuel) e
-       | SVarDecl _ _ (Some e) => reads_e (S fuel) e
-       | SVarDecl _ _ None => []
-       | SAssign _ v => reads_e (S fuel) v
-       | SFieldAssign t v | SPointerAssign t v => reads_e (S fuel) t ++ reads_e (S fuel) v
-       | SIndexAssign a i v => reads_e (S fuel) a ++ reads_e (S fuel) i ++ reads_e (S fuel) v
-       | SReturn (Some e) => reads_e (S fuel) e
-       | SReturn None | SBreak => []
-       | SIf c th el => reads_e (S fuel) c ++ reads_s fuel th ++ match el with Some b => reads_s fuel b | None => [] end
-       | SLoop b => reads_s fuel b
-       | SSwitchExpr e cases d =>
-           reads_e (S fuel) e ++
-           (fix go (l : list (expr * list stmt)) : list str := match l with [] => [] | (c, b) :: r => reads_e (S fuel) c ++ reads_s fuel b ++ go r end) cases ++
-           match d with Some b => reads_s fuel b | None => [] end
-       | SSwitchType _ e cases d =>
-           reads_e (S fuel) e ++
-           (fix go (l : list (gty * list stmt)) : list str := match l with [] => [] | (_, b) :: r => reads_s fuel b ++ go r end) cases ++
-           match d with Some b => reads_s fuel b | None => [] end
-       end) ++ reads_s fuel rest
-  end
-  end.
-
-Fixpoint decls_s (fuel : nat) (ss : list stmt) {struct fuel} : list str :=
-  match fuel with
-  | O => []
-  | S fuel =>
-  match ss with
-  | [] => []
-  | st :: rest =>
-      (match st with
-       | SVarDecl x _ _ => [x]
-       | SIf _ th el => decls_s fuel th ++ match el with Some b => decls_s fuel b | None => [] end
-       | SLoop b => decls_s fuel b
-       | SSwitchExpr _ cases d =>
-           (fix go (l : list (expr * list stmt)) : list str := match l with [] => [] | (_, b) :: r => decls_s fuel b ++ go r end) cases ++
-           match d with Some b => decls_s fuel b | None => [] end
-       | SSwitchType bind _ cases d =>
-           (fix go (l : list (gty * list stmt)) : list str := match l with [] => [] | (_, b) :: r => decls_s fuel b ++ go r end) cases ++
-           match d with Some b => decls_s fuel b | None => [] end
-       | _ => []
-       end) ++ decls_s fuel rest
-  end
-  end.
 
 Definition FUEL : nat := 400.
 
@@ -443,4 +457,4 @@ Definition go_wf (f : file) : list (str * finding) :=
   let rd := all_reads f in
   flat_map (fun it => match it with IFn x => map (fun e => (f_name x, e)) (chk_fn g x) | _ => [] end) f
   ++ map (fun e => ([], e)) (dups (top_names f) [])
-  ++ flat_map (fun p => if existsb (fun x => has_prefix (p ++ [46]) x) rd then [] else [([], (13, p))]) (g_imports g).
+  ++ flat_map (fun p => if existsb (fun x => has_prefix (last_segment p ++ [46]) x) rd then [] else [([], (13, p))]) (g_imports g).
